@@ -743,9 +743,19 @@ def _helper_candidates(repo: Repo, prot: set):
                 ok = False
                 break
             caller = repo.func_of(call)
-            if caller is None or caller.module != f.module or caller.node is h or any(x is call for x in ast.walk(h)):
+            if caller is None or caller.node is h or any(x is call for x in ast.walk(h)):
                 ok = False
                 break
+            if caller.module != f.module:
+                # a method moved to a class of another module: only if its body is closed - every name it reads is a parameter, a local
+                # or a builtin (module globals would mean something else at the call site)
+                import builtins as _b
+                loc_ = {a_.arg for a_ in h.args.posonlyargs + h.args.args + h.args.kwonlyargs} | \
+                       {x.id for s_ in body for x in ast.walk(s_) if isinstance(x, ast.Name) and isinstance(x.ctx, ast.Store)}
+                if not is_method or any(isinstance(x, ast.Name) and isinstance(x.ctx, ast.Load) and x.id not in loc_ and not hasattr(_b, x.id)
+                                        for s_ in body for x in ast.walk(s_)):
+                    ok = False
+                    break
             if is_method:
                 own = isinstance(at.value, ast.Name) and at.value.id == "self" and caller.cls == f.cls \
                     and [ast.unparse(d_) for d_ in h.decorator_list] != ["classmethod"]
@@ -1423,6 +1433,46 @@ def _split_parallel_assignments(fn) -> bool:
     return changed
 
 
+def _canonical_counter_updates(fn) -> bool:
+    """(a) `t = E` directly followed by `c = t` (E pure, t a local, c a name or attribute chain) is `c = E` followed by `t = c`: the
+    update is then written against the field, and t is an ordinary alias of it;
+    (b) `c = c + E` / `c = c - E` (E pure and not mentioning c) is `c += E` / `c -= E`."""
+    changed = False
+    for par in [fn] + list(own_walk(fn)):
+        for fld in ("body", "orelse", "finalbody"):
+            blk = getattr(par, fld, None)
+            if not isinstance(blk, list):
+                continue
+            for i in range(len(blk) - 1):
+                a, b = blk[i], blk[i + 1]
+                if isinstance(a, ast.AnnAssign) and a.value is not None and isinstance(a.target, ast.Name) and a.simple and isinstance(b, ast.Assign) \
+                        and isinstance(b.value, ast.Name) and b.value.id == a.target.id:
+                    a = blk[i] = ast.copy_location(ast.Assign(targets=[a.target], value=a.value), a)       # (the annotation has no run-time effect)
+                    a._parent = par
+                # (evaluate E, bind t, store c) and (evaluate E, store c, bind t) are the same whatever E does: binding a local has no
+                # effect, and the target c is a plain name/attribute chain
+                if isinstance(a, ast.Assign) and len(a.targets) == 1 and isinstance(a.targets[0], ast.Name) and isinstance(b, ast.Assign) \
+                        and len(b.targets) == 1 and isinstance(b.value, ast.Name) and b.value.id == a.targets[0].id \
+                        and _is_plain_target(b.targets[0]) and not isinstance(a.value, (ast.Name, ast.Attribute, ast.Constant)) \
+                        and (_is_pure_expr(a.value) or isinstance(b.targets[0], ast.Attribute)) \
+                        and not any(isinstance(x, ast.Name) and x.id == a.targets[0].id for x in ast.walk(b.targets[0])) \
+                        and not any(isinstance(x, ast.Name) and x.id == a.targets[0].id for x in ast.walk(a.value)):
+                    t_name, c_tgt = a.targets[0], b.targets[0]
+                    a.targets, b.targets = [c_tgt], [t_name]
+                    load = ast.parse(ast.unparse(c_tgt), mode="eval").body
+                    b.value = ast.copy_location(load, b.value)
+                    ast.fix_missing_locations(b)
+                    changed = True
+            for i, st in enumerate(blk):
+                if isinstance(st, ast.Assign) and len(st.targets) == 1 and _is_plain_target(st.targets[0]) and isinstance(st.value, ast.BinOp) \
+                        and isinstance(st.value.op, (ast.Add, ast.Sub)) and ast.unparse(st.value.left) == ast.unparse(st.targets[0]) \
+                        and _is_pure_expr(st.value.right) and ast.unparse(st.targets[0]) not in ast.unparse(st.value.right):
+                    blk[i] = ast.copy_location(ast.AugAssign(target=st.targets[0], op=st.value.op, value=st.value.right), st)
+                    ast.fix_missing_locations(blk[i])
+                    changed = True
+    return changed
+
+
 def _canonical_clamps(fn) -> bool:
     """`x = E` immediately followed by `if x < 0: x = 0` is `x = max(E, 0)`"""
     changed = False
@@ -1715,12 +1765,18 @@ def resolve_aliases(repo: Repo):
                 for chd in ast.iter_child_nodes(par):
                     chd._parent = par
     for f in repo.all_funcs:
+        if _canonical_bool_locals(f.node, repo):
+            for par in ast.walk(f.node):
+                for chd in ast.iter_child_nodes(par):
+                    chd._parent = par
+    for f in repo.all_funcs:
         ch = _forward_tuple_results(f.node)
         if ch:
             for par in ast.walk(f.node):
                 for chd in ast.iter_child_nodes(par):
                     chd._parent = par
         ch = _split_parallel_assignments(f.node) or ch
+        ch = _canonical_counter_updates(f.node) or ch
         ch = _canonical_clamps(f.node) or ch
         if ch:
             for par in ast.walk(f.node):
@@ -1756,6 +1812,161 @@ def resolve_aliases(repo: Repo):
         for par in ast.walk(f.node):
             for ch in ast.iter_child_nodes(par):
                 ch._parent = par
+    for f in repo.all_funcs:
+        if _forward_field_snapshots(f.node):
+            for par in ast.walk(f.node):
+                for ch in ast.iter_child_nodes(par):
+                    ch._parent = par
+
+
+def _surely_bool(e, repo) -> bool:
+    if isinstance(e, ast.Compare):
+        return True
+    if isinstance(e, ast.UnaryOp) and isinstance(e.op, ast.Not):
+        return True
+    if isinstance(e, ast.Constant) and isinstance(e.value, bool):
+        return True
+    if isinstance(e, ast.BoolOp):
+        return all(_surely_bool(v, repo) for v in e.values)
+    if isinstance(e, ast.Call) and isinstance(e.func, ast.Name):
+        if e.func.id in ("isinstance", "issubclass", "callable", "hasattr", "bool"):
+            return True
+        defs = [f for f in repo.all_funcs if f.node.name == e.func.id and f.cls is None and f.parent is None]
+        return bool(defs) and all(isinstance(f.node.returns, ast.Name) and f.node.returns.id == "bool" for f in defs)
+    if isinstance(e, ast.Call) and isinstance(e.func, ast.Attribute) and e.func.attr in ("cancelled", "done", "is_set", "locked") and not e.args and not e.keywords:
+        return True
+    return False
+
+
+def _canonical_bool_locals(fn, repo) -> bool:
+    """`ok = A and B ... if ok: ... return ok` with a boolean-valued right-hand side is the written-out decision
+    `if A and B: ok = True else: ok = False ... if ok: return True else: return False`: the rules then see the conditions on
+    the paths, and the literal verdicts."""
+    counts: dict[str, int] = {}
+    for n in own_walk(fn):
+        if isinstance(n, ast.Name) and isinstance(n.ctx, (ast.Store, ast.Del)):
+            counts[n.id] = counts.get(n.id, 0) + 1
+        elif isinstance(n, ast.ExceptHandler) and n.name:
+            counts[n.name] = counts.get(n.name, 0) + 2
+    changed = False
+    for d in [x for x in own_walk(fn) if isinstance(x, ast.Assign) and len(x.targets) == 1 and isinstance(x.targets[0], ast.Name)]:
+        k = d.targets[0].id
+        if counts.get(k) != 1 or not isinstance(d.value, (ast.BoolOp, ast.Compare, ast.UnaryOp, ast.Call)) or not _surely_bool(d.value, repo):
+            continue
+        uses = [x for x in ast.walk(fn) if isinstance(x, ast.Name) and x.id == k and isinstance(x.ctx, ast.Load)]
+        if not uses:
+            continue
+
+        def role(u_):
+            p_ = getattr(u_, "_parent", None)
+            if isinstance(p_, ast.UnaryOp) and isinstance(p_.op, ast.Not):
+                u_, p_ = p_, getattr(p_, "_parent", None)
+            if isinstance(p_, (ast.If, ast.While)) and p_.test is u_:
+                return "test"
+            if isinstance(p_, ast.Return) and p_.value is u_ and isinstance(u_, ast.Name):
+                return "return"
+            return None
+
+        roles = [role(u_) for u_ in uses]
+        if None in roles or "return" not in roles:
+            continue        # (without a returned verdict there is nothing to make literal; tests on a local are followed by the facts anyway)
+        holder = getattr(d, "_parent", None)
+        blk = next((getattr(holder, fl) for fl in ("body", "orelse", "finalbody") if isinstance(getattr(holder, fl, None), list) and d in getattr(holder, fl)), None)
+        if blk is None:
+            continue
+        mk = lambda val: ast.copy_location(ast.Assign(targets=[ast.Name(id=k, ctx=ast.Store())], value=ast.Constant(value=val)), d)
+        dec = ast.copy_location(ast.If(test=d.value, body=[mk(True)], orelse=[mk(False)]), d)
+        ast.fix_missing_locations(dec)
+        blk[blk.index(d)] = dec
+        for u_, r_ in zip(uses, roles):
+            if r_ != "return":
+                continue
+            ret = u_._parent
+            hold2 = getattr(ret, "_parent", None)
+            blk2 = next((getattr(hold2, fl) for fl in ("body", "orelse", "finalbody") if isinstance(getattr(hold2, fl, None), list) and ret in getattr(hold2, fl)), None)
+            if blk2 is None:
+                continue
+            rt = lambda val: ast.copy_location(ast.Return(value=ast.Constant(value=val)), ret)
+            sel = ast.copy_location(ast.If(test=ast.Name(id=k, ctx=ast.Load()), body=[rt(True)], orelse=[rt(False)]), ret)
+            ast.fix_missing_locations(sel)
+            blk2[blk2.index(ret)] = sel
+        changed = True
+        for par_ in ast.walk(fn):
+            for ch in ast.iter_child_nodes(par_):
+                ch._parent = par_
+    return changed
+
+
+def _forward_field_snapshots(fn) -> bool:
+    """`t = self._x` whose field is rewritten later in the same function (`n = self._count; if n: self._count = 0; parent += n`) is
+    not an alias - but every use of t positioned before the first thing that could change the field (a store to an attribute of
+    the chain, a call, a suspension point; a loop that contains both) still reads the field's value, and is written against the
+    field.  The definition stays for the remaining uses."""
+    from .facts import strip_cast
+    counts: dict[str, int] = {}
+    for n in own_walk(fn):
+        if isinstance(n, ast.Name) and isinstance(n.ctx, (ast.Store, ast.Del)):
+            counts[n.id] = counts.get(n.id, 0) + 1
+        elif isinstance(n, ast.ExceptHandler) and n.name:
+            counts[n.name] = counts.get(n.name, 0) + 2
+    params = {a.arg for a in fn.args.posonlyargs + fn.args.args + fn.args.kwonlyargs}
+    changed = False
+    pos = lambda n_: (getattr(n_, "lineno", 0), getattr(n_, "col_offset", 0))
+    for d in [x for x in own_walk(fn) if isinstance(x, ast.Assign) and len(x.targets) == 1 and isinstance(x.targets[0], ast.Name)]:
+        k = d.targets[0].id
+        v = strip_cast(d.value)
+        if counts.get(k) != 1 or k in params or not isinstance(v, ast.Attribute) or any(isinstance(x, (ast.Call, ast.Subscript)) for x in ast.walk(v)):
+            continue
+        base = v
+        while isinstance(base, ast.Attribute):
+            base = base.value
+        if not (isinstance(base, ast.Name) and counts.get(base.id, 0) == 0):
+            continue
+        holder = getattr(d, "_parent", None)
+        blk = next((getattr(holder, fl) for fl in ("body", "orelse", "finalbody") if isinstance(getattr(holder, fl, None), list) and d in getattr(holder, fl)), None)
+        if blk is None:
+            continue
+        after = blk[blk.index(d) + 1:]
+        inside = {id(x) for s_ in after for x in ast.walk(s_)}
+        uses = [x for x in own_walk(fn) if isinstance(x, ast.Name) and x.id == k and isinstance(x.ctx, ast.Load)]
+        if not uses or any(id(x) not in inside for x in uses):
+            continue
+        if sum(1 for x in ast.walk(fn) if isinstance(x, ast.Name) and x.id == k) != len(uses) + 1:
+            continue
+        chain_attrs = {x.attr for x in ast.walk(v) if isinstance(x, ast.Attribute)}
+
+        def disturbs(x):
+            if isinstance(x, ast.Attribute) and isinstance(x.ctx, (ast.Store, ast.Del)) and x.attr in chain_attrs:
+                return True
+            if isinstance(x, (ast.Yield, ast.YieldFrom, ast.AsyncFor, ast.AsyncWith, ast.Await)):
+                return True
+            if isinstance(x, ast.Call) and not (isinstance(x.func, ast.Name) and (x.func.id in _PURE_CALLS or x.func.id[:1].isupper())):
+                return True
+            return False
+
+        dist = [x for s_ in after for x in ast.walk(s_) if hasattr(x, "lineno") and disturbs(x)]
+        loops = [x for s_ in after for x in ast.walk(s_) if isinstance(x, (ast.While, ast.For))]
+        if not dist:
+            continue            # a plain alias: the business of local_aliases
+        first = min(pos(x) for x in dist)
+        for u_ in uses:
+            if pos(u_) >= first:
+                continue
+            if any(any(y is u_ for y in ast.walk(lp)) and any(disturbs(y) for y in ast.walk(lp)) for lp in loops):
+                continue
+            h_ = getattr(u_, "_parent", None)
+            rep = ast.copy_location(clone_expr(v), u_)
+            for x in ast.walk(rep):
+                if hasattr(x, "ctx"):
+                    x.ctx = ast.Load()
+            for f_, val in ast.iter_fields(h_) if h_ is not None else []:
+                if val is u_:
+                    setattr(h_, f_, rep)
+                elif isinstance(val, list) and any(y is u_ for y in val):
+                    val[[y is u_ for y in val].index(True)] = rep
+            ast.fix_missing_locations(rep)
+            changed = True
+    return changed
 
 
 def _stmt_at_line(fn, line):
